@@ -96,6 +96,29 @@ fn main() {
             }
         });
     }
+    // narrow element types at magnitude (50001^2 exceeds i32 and is not an f32): every product and square
+    // has to be formed in f64, for the regressand and for the regressor
+    let narrow_alpha: Vec<X> = vec![None, Some(1.0), Some(3.0), Some(50001.0), Some(-50001.0)];
+    let pairs_narrow = PairFam {
+        name: "pairs-narrow".into(),
+        alpha: narrow_alpha.clone(),
+        max_len: run.pick(3, 4),
+        tys: vec![ty_v2::<f64, i32, f64>(), ty_v2::<i32, f64, f64>(), ty_v2::<i32, i32, f64>(), ty_v2::<f32, f32, f64>(), ty_v2::<f64, f32, f64>(), ty_v2::<i64, i64, f64>(), ty_v2::<Option<i32>, Option<i32>, f64>()],
+        scales: vec![],
+        // the well-conditioned statistics only: residual statistics of a near-exact fit at this magnitude
+        // are differences of sums of order 10^10 (DESIGN 5.2)
+        fns: vec![R2::Cov, R2::Corr, R2::Alpha, R2::Beta],
+        ..clone_pair(&pairs)
+    };
+    let trend_narrow = SeriesFam {
+        name: "trend-narrow".into(),
+        alpha: narrow_alpha.clone(),
+        max_len: run.pick(4, 5),
+        tys: vec![ty_v1::<i32, f64>(), ty_v1::<f32, f64>(), ty_v1::<i64, f64>(), ty_v1::<Option<i32>, f64>()],
+        scales: vec![],
+        fns: vec![R1::Reg, R1::Tsf, R1::Slope, R1::Intercept],
+        ..trend.nan_kinds(0)
+    };
     // every NaN is the same null (DESIGN 5.4)
     let pairs_nan = pairs.nan_kinds(run.pick(3, 4));
     let trend_nan = trend.nan_kinds(run.pick(5, 6));
@@ -110,6 +133,10 @@ fn main() {
         let word = syms_from_json(&case["word"]);
         if fam == "trend" {
             trend.check_word(&word, &mut ctx);
+        } else if fam == pairs_narrow.name {
+            pairs_narrow.check_word(&word, &mut ctx);
+        } else if fam == trend_narrow.name {
+            trend_narrow.check_word(&word, &mut ctx);
         } else if fam == pairs_nan.name {
             pairs_nan.check_word(&word, &mut ctx);
         } else if fam == trend_nan.name {
@@ -126,6 +153,8 @@ fn main() {
     }
     let mut total = explore_tree(&pairs, run.threads);
     total.merge(explore_tree(&pairs_nan, run.threads));
+    total.merge(explore_tree(&pairs_narrow, run.threads));
+    total.merge(explore_tree(&trend_narrow, run.threads));
     total.merge(explore_tree(&trend_nan, run.threads));
     total.merge(explore_tree(&pairs_m, run.threads));
     total.merge(explore_tree(&trend, run.threads));
